@@ -32,6 +32,10 @@ fn maps() -> Vec<Beatmap> {
         MapSpec::new(1, (0..40).map(|i| o(Kind::Circle, if i % 7 == 0 { 240 } else { 110 }, PosK::Far, if (i / 3) % 2 == 0 { 0 } else { 2 }, 0)).collect()).decode(),
         // #4: taiko, long, alternating colours
         MapSpec::new(1, (0..40).map(|i| o(Kind::Circle, 125, PosK::Far, if i % 2 == 0 { 8 } else { 0 }, 0)).collect()).decode(),
+        // #5: native catch, early first fruit (the hard-rock offset of a fruit looks at the previous object's position and time)
+        MapSpec { first_start: 400, ..MapSpec::new(2, vec![o(Kind::Circle, 0, PosK::Same, 0, 0), o(Kind::Circle, 300, PosK::Near, 0, 0), o(Kind::Circle, 200, PosK::Far, 0, 0), o(Kind::Slider2, 300, PosK::Near, 0, 0), o(Kind::Circle, 400, PosK::Same, 0, 0)]) }.decode(),
+        // #6: native catch ending on a juice stream somewhere else
+        MapSpec { first_start: 900, ..MapSpec::new(2, vec![o(Kind::Circle, 0, PosK::Far, 0, 0), o(Kind::Circle, 250, PosK::Far, 0, 0), o(Kind::SliderLong, 300, PosK::Far, 0, 0)]) }.decode(),
     ]
 }
 
@@ -42,6 +46,8 @@ fn setts() -> Vec<Setting> {
         Setting::mods(ModSpec::Random(Some(11.0))),
         Setting::mods(ModSpec::Random(Some(7777.0))),
         Setting::bits(settings::KEY7),
+        // #5: hard-rock offsets without the mod
+        Setting { hr_offsets: Some(true), ..Setting::nm() },
     ]
 }
 
@@ -116,7 +122,7 @@ impl World {
 fn jobs(len: usize) -> Vec<Vec<Step>> {
     let mut v: Vec<Vec<Step>> = Vec::new();
     // taiko with two different Random seeds, mania convert with Random and key mods, osu, plus gradual walks
-    let bases: Vec<(u8, u8, u8)> = vec![(0, 0, 0), (1, 1, 2), (1, 1, 3), (0, 3, 2), (0, 3, 4), (2, 3, 3), (0, 1, 1), (0, 2, 1)];
+    let bases: Vec<(u8, u8, u8)> = vec![(0, 0, 0), (1, 1, 2), (1, 1, 3), (0, 3, 2), (0, 3, 4), (2, 3, 3), (0, 1, 1), (0, 2, 1), (5, 2, 5), (6, 2, 1)];
     for &(map, dst, s) in &bases {
         let mut a = vec![Step::Difficulty { map, dst, s }, Step::Performance { map, dst, s }, Step::Strains { map, dst, s }];
         a.truncate(len);
@@ -149,6 +155,8 @@ fn guard_jobs() -> Vec<Vec<Step>> {
         vec![Step::GradualPerfNew { map: 0, dst: 3, s: 2 }, Step::GradualPerfNext],
         vec![Step::Convert { map: 0, dst: 1, s: 3 }, Step::Strains { map: 0, dst: 1, s: 3 }],
         vec![Step::Decode, Step::Decode],
+        twice(Step::Difficulty { map: 5, dst: 2, s: 5 }),
+        vec![Step::Difficulty { map: 6, dst: 2, s: 1 }, Step::Difficulty { map: 6, dst: 2, s: 5 }],
     ]
 }
 
